@@ -185,6 +185,7 @@ let spec_session cfgs chunks obs =
     let evs = ref [Reply (n_of_int 220)] in
     let emit l = evs := !evs @ l in
     let k = ref 0 in
+    let limits_bad = ref false in
     let rec go = function
       | [] -> ()
       | c :: rest ->
@@ -217,6 +218,10 @@ let spec_session cfgs chunks obs =
                | p :: rest' ->
                    if not (payload_ok p) then raise Not_simple;
                    let r2 = next () in
+                   (* the proved verdict checker (C15_verdict_checker_sound) on the data lines the client sent *)
+                   let plines = List.map (fun l -> bytes_of_str (String.sub l 0 (String.length l - 1)))
+                       (List.filter (fun l -> l <> "") (String.split_on_char '\n' (String.sub p 0 (String.length p - 3)))) in
+                   if not (data_verdict_ok (maxbytes o) plines (n_of_int r2)) then limits_bad := true;
                    if r2 = 250 then
                      (match !hs with
                       | (e, m) :: t -> hs := t; emit [Handoff (e, m); Note NBoundary; Reply (n_of_int r2)]
@@ -232,6 +237,7 @@ let spec_session cfgs chunks obs =
     go chunks;
     let bad = ref [] in
     if !hs <> [] then bad := "handoff-without-250" :: !bad;
+    if !limits_bad then bad := "limits" :: !bad;
     (match trace_run o !evs a_init with None -> bad := "trace" :: !bad | Some _ -> ());
     (match queue_run o !evs QIdle with None -> bad := "queue" :: !bad | Some _ -> ());
     if !bad = [] then "ok" else "bad:" ^ String.concat "," (List.rev !bad)
